@@ -137,23 +137,27 @@ def check(case, ctx):
     kw = dict(bkwargs(case), **to_kw(case, targets, case["to"] is not None))
 
     # ---- reference
-    a = a0.copy()
-    dims = list(dims0)
-    lead = False
-    if mode == "cumint":
+    def reference(a_in):
+        a = a_in.copy()
+        dims = list(dims0)
+        lead = False
+        if mode == "cumint":
+            for n in case["op_axes"]:
+                k = dims.index(gen.dim_name(n, case["data_pos"][n]))
+                a = a * bcast(case["metrics"][dims[k]], k, a.ndim)
         for n in case["op_axes"]:
-            k = dims.index(gen.dim_name(n, case["data_pos"][n]))
-            a = a * bcast(case["metrics"][dims[k]], k, a.ndim)
-    for n in case["op_axes"]:
-        frm, to = case["data_pos"][n], targets[n]
-        k = dims.index(gen.dim_name(n, frm))
-        if mode == "weighted":
-            a = a * bcast(case["metrics"][dims[k]], k, a.ndim)
-        a, ld = M.cumsum(a, k, by_name[n]["n"], frm, to, rules[n], fills[n])
-        lead = lead or ld
-        dims[k] = gen.dim_name(n, to)
-        if mode == "weighted":
-            a = a / bcast(case["metrics"][dims[k]], k, a.ndim)
+            frm, to = case["data_pos"][n], targets[n]
+            k = dims.index(gen.dim_name(n, frm))
+            if mode == "weighted":
+                a = a * bcast(case["metrics"][dims[k]], k, a.ndim)
+            a, ld = M.cumsum(a, k, by_name[n]["n"], frm, to, rules[n], fills[n])
+            lead = lead or ld
+            dims[k] = gen.dim_name(n, to)
+            if mode == "weighted":
+                a = a / bcast(case["metrics"][dims[k]], k, a.ndim)
+        return a, dims, lead
+
+    a, dims, lead = reference(a0)
     exp, exp_dims = a, dims
 
     # ---- xgcm
@@ -204,6 +208,15 @@ def check(case, ctx):
         must_return("cumsum with another boundary treatment", grid.cumsum, da, list(case["op_axes"]), boundary="fill", fill_value=41.5)
         again = must_return("Grid.cumsum (repeated)", grid.cumsum, da, ax_arg, **kw)
         compare(again, exp, exp_dims, "the same cumsum repeated after other calls on the same Grid", exact=exact)
+    # the very same input object updated in place: the running sum follows the new values
+    if not plain32:
+        a1 = 3 - 2 * a0
+        da.values[...] = a1
+        exp_u, exp_dims_u, _ = reference(a1)
+        fn_u = {"plain": grid.cumsum, "weighted": grid.cumsum, "cumint": grid.cumint}[mode]
+        kw_u = dict(kw, metric_weighted={n: (n,) for n in case["op_axes"]}) if mode == "weighted" else kw
+        upd = must_return("running sum (input updated in place)", fn_u, da, ax_arg, **kw_u)
+        compare(upd, exp_u, exp_dims_u, "running sum after the input object was updated in place", exact=exact)
     return {"nontrivial": bool(lead or len(case["op_axes"]) > 1), "classes": classes}
 
 
